@@ -395,6 +395,13 @@ def c2s(ctx, fmt, ntraces, maxops):
         rec, text = cc.ser_record(sf, i)
         recs.append(rec)
         meta[i] = {"mode": "c2s", "fmt": fmt, "start": name, "nops": nops, "hist_seed": hist_seed, "i": i}
+    # one long value with an escaped character on / next to buffer-sized offsets of the emitted text
+    brng = random.Random(ctx.seed * 13 + 5)
+    for sf, info in cc.boundary_objects(fmt, brng, range(-3, 4) if ctx.quick else range(-8, 9)):
+        i = len(recs)
+        rec, text = cc.ser_record(sf, i)
+        recs.append(rec)
+        meta[i] = dict(info, mode="boundary", fmt=fmt, start="boundary", nops=1, seed=ctx.seed)
     verdict = cc.validate(ctx, recs)
     pid = "C01" if fmt == "sm" else "C02"
     excluded = 0
